@@ -218,4 +218,29 @@ def OutArgsPlainArgs (Γ : Env) : IArgs → Prop
   | .cons e r => OutArgsPlain Γ e ∧ OutArgsPlainArgs Γ r
 end
 
+/-! ## statements -/
+
+/-- the exported statement as the front end reads it: the expression is exported, the declared type of a definition
+    is printed as it is (`generate_variable_definition`) -/
+inductive UnelabStmt (Γ' : Env) : IStmt → SStmt → Prop where
+  | expr {e : IExpr} {s : SExpr} : Unelab Γ' e s → UnelabStmt Γ' (.expr e) (.expr s)
+  | retNone : UnelabStmt Γ' (.ret none) (.ret none)
+  | ret {e : IExpr} {s : SExpr} : Unelab Γ' e s → UnelabStmt Γ' (.ret (some e)) (.ret (some s))
+  | init {t : Ty} {e : IExpr} {s : SExpr} : Unelab Γ' e s → UnelabStmt Γ' (.init t e) (.init t s)
+
+def SrcStmtOk : SStmt → Prop
+  | .expr e => SrcOk e
+  | .ret none => True
+  | .ret (some e) => SrcOk e
+  | .init _ e => SrcOk e
+
+def OutArgsPlainStmt (Γ : Env) : IStmt → Prop
+  | .expr e => OutArgsPlain Γ e
+  | .ret none => True
+  | .ret (some e) => OutArgsPlain Γ e
+  | .init _ e => OutArgsPlain Γ e
+
+/-- the environment of the exported program used by the driver and the non-vacuity examples: function `i` is named `i` -/
+def uniqueNames (Γ : Env) : Env := { Γ with funcs := Γ.funcs.mapIdx fun i s => { s with name := i } }
+
 end RsslVerif.Model.Fixpoint
